@@ -108,7 +108,8 @@ def run_one(prop, prefix=(), seed=0, replay=None, trace=False, params=None):
             ctx.log("VIOLATION", key)
             return Outcome("violation", key, "every task thread and the scheduler were parked without a single step for 20 s of wall time: the baton "
                            "of the cooperative scheduler is lost. On an unchanged tree this has never been seen; it happens when the code under "
-                           "test keeps a lock or condition object alive from one run to the next (class attribute, module global). Last events: %s"
+                           "test blocks on a lock or condition object that the simulator does not own - one created when the module was imported "
+                           "(class attribute, module global), before the seams were in place (VERIF_DEBUG_PARK=1 dumps all thread stacks). Last events: %s"
                            % ((ctx.trace or [])[-5:],), tape.values, ctx.digest(), ctx)
         except NoProgress:
             watch.stop()
